@@ -273,6 +273,10 @@ def check(run: Run) -> None:
     check_binders(run, TermCtx(m, max_depth=2), m, m.find_class("_rewrite_captured_vars", in_module="func_adl.util_ast"), "C10.R7")
 
     # ---------------- R8: lambda source text is parsed as given
+    run.rule("C10.R9", "remap_from_lambda hands back the lambda with its own arguments object (defaults, *args, **kw, keyword-only parameters untouched) and the followed body")
+    _check_lambda_rebuilt(run, m, mod)
+    run.rule("C10.R10", "get_method_and_class answers 'no method' for the unknown type by identity (class_object is Any), before any MRO walk")
+    _check_any_guard(run, m)
     run.rule("C10.R8", "the string form of a lambda is parsed as given (only surrounding whitespace stripped): no re-tokenising / whitespace normalisation that would alter string constants")
     pa = m.find_func("parse_as_ast", in_module="func_adl.util_ast")
     n_p = 0
@@ -295,6 +299,57 @@ def check(run: Run) -> None:
     # ---------------- R5
     check_env_merge(run, m, "C10.R5")
     # Where's designed refusal exists (shared with C08.R2) and the IfExp / tuple-index / dict-key refusals are ValueErrors: R4 covers them
+
+
+def _check_lambda_rebuilt(run: Run, m, mod: str) -> None:
+    rl = m.find_func("remap_from_lambda", in_module=mod)
+    ctx = TermCtx(m, max_depth=1, opaque={"remap_by_types", "lambda_build"})
+    fa = ctx.analysis(rl)
+    lp = ("param", rl.pos_params[1])
+    n = 0
+    for s_, n_ in fa.returns():
+        t = strip_sites(fa.term_of(s_.value, n_))
+        if t[0] != "tuple" or len(t[1]) != 3:
+            run.fail("C10.R9", rl, s_, f"remap_from_lambda returns {show(t)[:100]}, expected (stream, lambda, type)")
+            continue
+        n += 1
+        lam = t[1][1]
+        d = dict(lam[2]) if lam[0] == "new" and lam[1] == "Lambda" else {}
+        ok_args = d.get("args") == ("attr", lp, "args")
+        body = d.get("body")
+        ok_body = body is not None and body[0] == "index" and body[2] == 1 and body[1][0] == "app" and body[1][1][0] == "global" and body[1][1][1].endswith("remap_by_types")
+        run.check(ok_args, "C10.R9", rl, s_, "the emitted lambda keeps the supplied lambda's arguments object", f"the emitted lambda is built as {show(lam)[:120]}: its parameter list is not the supplied lambda's own `args` - defaults, *args / **kw and keyword-only parameters of the user's lambda are dropped or rebuilt (lambda x=1: x.a is emitted as lambda x: x.a)", "ast.Lambda(l_func.args, new_body)", show(lam)[:300], key="emitted lambda does not keep l_func.args")
+        run.check(ok_body, "C10.R9", rl, s_, "the emitted lambda's body is the followed body", f"the emitted lambda's body is {show(body)[:100] if body else '?'}")
+    run.floor("C10.R9", n, 1, "returns of remap_from_lambda")
+
+
+def _check_any_guard(run: Run, m) -> None:
+    gm = m.find_func("get_method_and_class", in_module="func_adl.util_types")
+    ctx = TermCtx(m, max_depth=1)
+    fa = ctx.analysis(gm)
+    cp = ("param", gm.pos_params[0])
+    # the unknown type is answered first: a `return None` under `class_object is Any` (identity, on the parameter as it came
+    # in) whose test dominates every walk over an MRO / getattr on the class
+    from ..model import ancestors as _anc
+
+    gates = []
+    for r_, _n in fa.returns():
+        if not (r_.value is None or (isinstance(r_.value, ast.Constant) and r_.value.value is None)):
+            continue
+        for a, pol in Facts(fa, r_).atoms:
+            if isinstance(a, ast.Compare) and len(a.ops) == 1 and isinstance(a.ops[0], (ast.Is, ast.IsNot)) and fa.cfg.has_node(a.left):
+                l_, r2 = strip_sites(fa.term_of(a.left)), strip_sites(fa.term_of(a.comparators[0]))
+                if {l_, r2} == {cp, ("global", "typing.Any")} and (isinstance(a.ops[0], ast.Is) == pol):
+                    g_ = next((x for x in _anc(r_) if isinstance(x, ast.If)), None)
+                    if g_ is not None:
+                        gates.append(g_)
+    walks = [c for c in calls_in(gm) if (ast.unparse(c.func) in ("inspect.getmro", "getmro") or (isinstance(c.func, ast.Name) and c.func.id == "getattr")) and fa.cfg.has_node(c)]
+    n = 0
+    for c in walks:
+        n += 1
+        ok = any(fa.cfg.dominates(fa.cfg.node_of(g_), fa.cfg.node_of(c)) and not any(c is y for b_ in g_.body for y in ast.walk(b_)) for g_ in gates)
+        run.check(ok, "C10.R10", gm, stmt_of(c), "the MRO of the class is consulted only after typing.Any was answered with None (identity test)", "get_method_and_class walks the MRO without having excluded typing.Any by identity: since Python 3.11 Any is a class whose MRO ends in object, so on an untyped stream every method name object defines (__eq__, __init__, ..) counts as found and the call is normalised or refused", "if class_object is Any: return None", key="MRO walk not excluded for typing.Any")
+    run.floor("C10.R10", n, 1, "MRO walks in get_method_and_class")
 
 
 def check_dict_typing(run: Run, ctx, m, tt, rule: str) -> None:
